@@ -88,6 +88,19 @@ def c1_variants(desc, small, full):
                 yield f"mut-hidden:{n}:{t2}", {"name": "c1", "nodes": nodes2}
     for k, d in enumerate(demorgan(desc)):
         yield f"demorgan:{k}", d
+    # an input of c0 is the name of an INTERNAL GATE of c1 (a port that one version computes itself): it is a
+    # startpoint of c0 only, so it is not tied and must not be wired into c1's copy
+    ins = [x[0] for x in desc["nodes"] if x[1] == "input"]
+    if len(ins) >= 2:
+        for t2 in ("or", "xor"):
+            nodes = []
+            for x in desc["nodes"]:
+                if x[0] == ins[-1]:
+                    nodes.append([ins[-1] + "_src", "input", [], False])
+                    nodes.append([ins[-1], t2, [ins[0], ins[-1] + "_src"], False])
+                else:
+                    nodes.append(list(x))
+            yield f"gate-for-input:{t2}", {"name": "c1", "nodes": nodes}
     for k, d in enumerate(small):
         if full or k % 3 == 0:
             yield f"small:{k}", d
